@@ -282,38 +282,52 @@ Fixpoint proto_buckets (S : bstr -> list lp -> Z -> list exm -> entry) (count : 
 
 Definition has_ts (e : exm) : bool := match ex_ts e with Some _ => true | None => false end.
 
-Definition proto_metric (o : opts) (f : family) (m : metric) : list entry :=
-  let tc := proto_tcode (f_type f) in
-  let unit := opt_bstr (f_unit f) in
-  let tu := o_typeunit o in
-  let st := match f_type f with
-            | MGauge | MUntyped => 0%Z
-            | _ => match m_created m with Some c => c | None => 0%Z end
-            end in
-  let S := fun suffix extra v exs =>
-    OS (series_labels tu (f_name f ++ suffix) tc unit (m_labels m ++ extra)) v (proto_ts m) exs st in
-  let classic := [S s_count [] (o_u2f O (m_count m)) []; S s_sum [] (m_sum m) []] ++
-                 proto_buckets S (m_count m) (m_b m) in
+Definition proto_st (f : family) (m : metric) : Z :=
   match f_type f with
-  | MCounter => [S [] [] (m_val m) (map sort_ex (opt_list (m_ex m)))]
-  | MGauge | MUntyped => [S [] [] (m_val m) []]
+  | MGauge | MUntyped => 0%Z
+  | _ => match m_created m with Some c => c | None => 0%Z end
+  end.
+
+Definition proto_S (o : opts) (f : family) (m : metric) (suffix : bstr) (extra : list lp) (v : Z) (exs : list exm) : entry :=
+  OS (series_labels (o_typeunit o) (f_name f ++ suffix) (proto_tcode (f_type f)) (opt_bstr (f_unit f)) (m_labels m ++ extra))
+     v (proto_ts m) exs (proto_st f m).
+
+(* a histogram metric as classic series: _count, _sum, buckets *)
+Definition proto_classic (o : opts) (f : family) (m : metric) : list entry :=
+  [proto_S o f m s_count [] (o_u2f O (m_count m)) []; proto_S o f m s_sum [] (m_sum m) []] ++
+  proto_buckets (proto_S o f m) (m_count m) (m_b m).
+
+(* a histogram metric as a native histogram entry; exemplars: those of the classic buckets that
+   carry a timestamp *)
+Definition proto_ox (o : opts) (f : family) (m : metric) (h : ohist) : entry :=
+  OX (series_labels (o_typeunit o) (f_name f) (proto_tcode (f_type f)) (opt_bstr (f_unit f)) (m_labels m))
+     h (proto_ts m) (map sort_ex (filter has_ts (flat_map (fun b => opt_list (bk_ex b)) (m_b m)))) (proto_st f m).
+
+Definition real_hist (f : family) (m : metric) (h : nhist) : ohist :=
+  mkOHist (nh_schema h) (nh_zth h) (nh_zcnt h) (m_count m) (m_sum m) (nh_ps h) (nh_pd h) (nh_ns h) (nh_nd h)
+          (match f_type f with MGHist => 3%Z | _ => 0%Z end).
+(* what the harness records when Histogram() returns neither an integer nor a float histogram *)
+Definition nil_hist : ohist := mkOHist 0 0 0 0 0 [] [] [] [] 99.
+
+Definition native_on (o : opts) (m : metric) : bool := negb (o_ignorenh o) && is_native m.
+
+(* SPEC: every metric is judged on its own *)
+Definition proto_metric (o : opts) (f : family) (m : metric) : list entry :=
+  match f_type f with
+  | MCounter => [proto_S o f m [] [] (m_val m) (map sort_ex (opt_list (m_ex m)))]
+  | MGauge | MUntyped => [proto_S o f m [] [] (m_val m) []]
   | MSummary =>
-      [S s_count [] (o_u2f O (m_count m)) []; S s_sum [] (m_sum m) []] ++
-      map (fun q => S [] [(s_quantile, o_fom O (fst q))] (snd q) []) (m_q m)
+      [proto_S o f m s_count [] (o_u2f O (m_count m)) []; proto_S o f m s_sum [] (m_sum m) []] ++
+      map (fun q => proto_S o f m [] [(s_quantile, o_fom O (fst q))] (snd q) []) (m_q m)
   | MHist | MGHist =>
-      if negb (o_ignorenh o) && is_native m then
-        match m_nh m with
-        | Some h =>
-            OX (series_labels tu (f_name f) tc unit (m_labels m))
-               (mkOHist (nh_schema h) (nh_zth h) (nh_zcnt h) (m_count m) (m_sum m)
-                        (nh_ps h) (nh_pd h) (nh_ns h) (nh_nd h)
-                        (match f_type f with MGHist => 3%Z | _ => 0%Z end))
-               (proto_ts m)
-               (map sort_ex (filter has_ts (flat_map (fun b => opt_list (bk_ex b)) (m_b m)))) st ::
-            (if o_keepclassic o && negb (is_nil (m_b m)) then classic else [])
-        | None => classic
-        end
-      else classic
+      match m_nh m with
+      | Some h =>
+          if native_on o m
+          then proto_ox o f m (real_hist f m h) ::
+               (if o_keepclassic o && negb (is_nil (m_b m)) then proto_classic o f m else [])
+          else proto_classic o f m
+      | None => proto_classic o f m
+      end
   end.
 
 Definition proto_family (o : opts) (f : family) : list entry :=
@@ -325,6 +339,50 @@ Definition proto_family (o : opts) (f : family) : list entry :=
     flat_map (proto_metric o f) (f_metrics f).
 
 Definition entries_proto (o : opts) (fams : list family) : list entry := flat_map (proto_family o) fams.
+
+(* MODEL of protobufparse.go's Next for the metrics of one histogram family: whether a metric is
+   looked at as native is decided by the parser state left by the previous metric.
+     PChecked    the state machine tests isNativeHistogram on this metric (first metric; after a
+                 native histogram entry without classic re-run),
+     PClassic    the previous metric was classic: this one is emitted as classic series unseen,
+     PUnchecked  the previous metric was native but ended in the classic-series state: this one
+                 is emitted as a histogram entry unseen. *)
+Inductive phow := PChecked | PClassic | PUnchecked.
+
+Definition proto_hist_step (o : opts) (f : family) (how : phow) (m : metric) : list entry * phow :=
+  let native := native_on o m in
+  let real := match m_nh m with Some h => real_hist f m h | None => nil_hist end in
+  match how with
+  | PClassic => (proto_classic o f m, if native then PUnchecked else PClassic)
+  | _ =>
+      if native then
+        if o_keepclassic o && negb (is_nil (m_b m))
+        then (proto_ox o f m real :: proto_classic o f m, PUnchecked)
+        else ([proto_ox o f m real], PChecked)
+      else match how with
+           | PUnchecked => ([proto_ox o f m nil_hist], PChecked)
+           | _ => (proto_classic o f m, PClassic)
+           end
+  end.
+
+Fixpoint proto_hist_run (o : opts) (f : family) (how : phow) (ms : list metric) : list entry :=
+  match ms with
+  | [] => []
+  | m :: r => let '(es, how') := proto_hist_step o f how m in es ++ proto_hist_run o f how' r
+  end.
+
+Definition model_proto_family (o : opts) (f : family) : list entry :=
+  if is_nil (f_metrics f) then []
+  else
+    [OH (f_name f) (opt_bstr (f_help f))] ++
+    (if is_nil (opt_bstr (f_unit f)) then [] else [OU (f_name f) (opt_bstr (f_unit f))]) ++
+    [OT (f_name f) (proto_tcode (f_type f))] ++
+    match f_type f with
+    | MHist | MGHist => proto_hist_run o f PChecked (f_metrics f)
+    | _ => flat_map (proto_metric o f) (f_metrics f)
+    end.
+
+Definition model_proto (o : opts) (fams : list family) : list entry := flat_map (model_proto_family o) fams.
 
 (* ================================================================== printers (expfmt) *)
 Definition is_alpha (c : N) : bool := ((65 <=? c) && (c <=? 90)) || ((97 <=? c) && (c <=? 122)) || (c =? 95).
@@ -955,8 +1013,6 @@ Definition om_series (o : opts) (tcode : N) (unit : bstr) (name : option bstr) (
   | None => LErr
   | Some n =>
       let skip := o_skipst o && type_requires_st tcode && has_suffix n s_created in
-      let E := fun ts exs => if skip then LSkip
-                             else LEntry (OS (parsed_labels (o_typeunit o) tcode unit n labels) 0%Z ts exs 0%Z) tcode unit in
       match r with
       | (tValue, v) :: r2 =>
           match parse_float (tl v) with
